@@ -3,6 +3,7 @@ proof of the copy-on-write discipline (Coq) + table regenerated from /repo's sou
 random public-API histories against the real library (hash of every live object after every step)."""
 import os, sys, re, json, random, time
 import vp
+import hashlib
 
 sys.path.insert(0, os.path.join(vp.ROOT, "translate"))
 
@@ -201,6 +202,16 @@ def run_histories(cx, H, exe, hists):
         cx.sample({"history": hists[len(hists) // 2][:400]})
 
 
+# minimized witnesses of recorded findings of the deferred-observation oracle (run first, in both tiers)
+DEFERRED_CORPUS = [
+    # A = cylinder, R = rotated (cube + cylinder): ((A + R) + A) + R.  Evaluated lazily the flattened union gives the
+    # volume of A + R (0.348016587); with every intermediate forced, the last union X + R (R inside X, sharing part of
+    # its boundary) returns 0.348359301 - forcing an intermediate changes a later result (root cause: the Boolean
+    # kernel on nearly coincident faces, C02 territory)
+    ["cube:1:2:2:3:1", "cyl:14:2:2:1:6:0", "bool:10:1:14:0:1", "rot:5:10:5:1:2", "bool:11:14:5:0:1", "bool:13:11:14:0:1", "bool:6:13:5:0:0"],
+]
+
+
 def deferred(cx, H, exe, boost=False):
     """Deferred observation: pure CSG histories in mode lazy0 (objects looked at late, after unevaluated relatives
     were reassigned/dropped) against the reference evaluation (same history, everything evaluated when built)."""
@@ -223,6 +234,18 @@ def deferred(cx, H, exe, boost=False):
                 by.setdefault(h, []).append(l)
         outs[mode] = by
     compared, late, fails, seen = 0, 0, 0, set()
+    shrunk_budget = [24]
+    # corpus first: minimized histories of recorded findings (known_findings.txt), keyed by the hash of their op list
+    for ci, cops in enumerate(DEFERRED_CORPUS):
+        for f in H.run_deferred(exe, cops, hid="c%d" % ci):
+            if f["key"] != H.DEFER_KEY:
+                continue
+            key = "%s:%s" % (H.DEFER_KEY, hashlib.sha1(" ".join(cops).encode()).hexdigest()[:12])
+            if key not in seen:
+                seen.add(key)
+                cx.violation(key, "%s: %s" % (H.DEFER_KEY, f.get("what", "")[:400]),
+                             {"history_lazy0": H.line("c%d" % ci, "lazy0", cops), "reference_history": H.line("c%d" % ci, "eager", cops),
+                              "how_to_replay": "echo '<history>' | %s   (G lines: status,empty,volume,area,bbox bit patterns)" % exe})
     for k, ops in enumerate(cases):
         hid = str(k + 1)
         ol, oe = "\n".join(outs["lazy0"].get(hid, [])), "\n".join(outs["eager"].get(hid, []))
@@ -240,6 +263,29 @@ def deferred(cx, H, exe, boost=False):
         late += sum(1 for t in ops if t.startswith("look:"))
         for f in fs:
             fails += 1
+            generic = f["key"]
+            if generic == H.DEFER_KEY:
+                # input-specific key: the hash of the shrunk history (so that a listed known finding covers exactly
+                # its own history and any other history is still reported); at most 24 shrinks per run
+                if shrunk_budget[0] <= 0:
+                    if generic in seen:
+                        continue
+                    seen.add(generic)
+                    small = ops
+                else:
+                    shrunk_budget[0] -= 1
+                    try:
+                        small = H.shrink_deferred(exe, ops, generic)
+                    except Exception:
+                        small = ops
+                key = "%s:%s" % (generic, hashlib.sha1(" ".join(small).encode()).hexdigest()[:12])
+                if key in seen:
+                    continue
+                seen.add(key)
+                cx.violation(key, "%s: %s" % (generic, f.get("what", "")[:400]),
+                             {"history_lazy0": H.line(hid, "lazy0", small), "reference_history": H.line(hid, "eager", small),
+                              "original": ll, "how_to_replay": "echo '<history>' | %s   (G lines: status,empty,volume,area,bbox bit patterns)" % exe})
+                continue
             if f["key"] in seen:
                 continue
             seen.add(f["key"])
